@@ -15,7 +15,16 @@ pub enum ComptimeResult {
     Type(Intern<Ty>),
     Integer { num: u64, bit_width: u8 },
     Float { num: f64, bit_width: u8 },
-    Data(Box<[u8]>),
+    /// The bytes of an aggregate, and the types whose ids sit inside of those bytes (members of
+    /// type `type`), each with its offset.
+    ///
+    /// A type id is only meaningful in the compilation that handed it out (every comptime
+    /// evaluation and the final binary number the types they come across on their own), so the
+    /// ids in `bytes` must be replaced by the reader's ids before the bytes are used.
+    Data {
+        bytes: Box<[u8]>,
+        type_ids: Vec<(usize, Intern<Ty>)>,
+    },
     Void,
 }
 
